@@ -349,6 +349,42 @@ def cont_cases(tier, seed):
     return cases
 
 
+def bad_encoding_failures():
+    """sheet.encoding = <a value that is refused> (unknown codec, a codec that is no text encoding, junk), with a log that
+    raises and with one that does not: a refused assignment leaves the rule list and the text as they were"""
+    global _RAISING
+    out = []
+    texts = ['@charset "ascii"; @import "x.css"; a { top: 0 }', '@charset "latin-1"; /*c*/ @namespace p "u"; p|a { top: 0 }',
+             '@import "x.css"; a { top: 0 }', 'a { top: 0 }', '']
+    for raising in (True, False):
+        _RAISING = raising
+        try:
+            cp = _setup()
+            for text in texts:
+                for bad in ('no-such-codec', 'rot13', 'INVALID ENCODING', 'hex', '"', 'utf-8; x'):
+                    sheet = cp.css.CSSStyleSheet()
+                    sheet._setFetcher(lambda url: None)
+                    sheet.cssText = text
+                    before = ([r.type for r in sheet.cssRules], sheet.cssText, sheet.encoding)
+                    try:
+                        sheet.encoding = bad
+                        res = 'returned'
+                    except xml.dom.DOMException as e:
+                        res = type(e).__name__
+                    except Exception as e:
+                        out.append('sheet %r: encoding = %r raised %s (no DOM exception)' % (text, bad, type(e).__name__))
+                        continue
+                    after = ([r.type for r in sheet.cssRules], sheet.cssText, sheet.encoding)
+                    taken = res == 'returned' and sheet.encoding == bad
+                    if not taken and after != before:
+                        out.append('sheet %r (log raises: %s): encoding = %r was refused (%s) but the sheet changed: %r -> %r' % (
+                            text, raising, bad, res, before, after))
+        finally:
+            _RAISING = True
+            _setup()
+    return out
+
+
 def list_oracle(case, _e=None):
     """insertRule(<CSSRuleList>, index) on sheets and on @media rules: all of the rules or none (a refused list leaves the
     container unchanged, object by object), and an accepted one leaves valid CSS"""
@@ -501,6 +537,8 @@ def run(tier, seed):
         broken.append('correspondence op `cont` diverges on %d histories; first %r impl=%s model=%s' % (
             cres['n_mismatch'], c, e[-300:], g[-300:]))
     lcases = list_cases(tier, seed)
+    for why in bad_encoding_failures()[:4]:
+        findings.add('encoding', why[:80], why)
     lres = corr.run('c07list', lcases, lambda c: 'numval -', lambda c: '~', list_oracle, chunk=100)
     for case, why in lres['oracle_fail'][:6]:
         findings.add('rule-list', repr(case), why)
